@@ -291,7 +291,8 @@ func checkC08Annotator(c *Check, L *Loaded) {
 				return true
 			}
 			okRet := false
-			if sel, ok := ast.Unparen(ret.Results[0]).(*ast.SelectorExpr); ok {
+			res := throughLocals(info, fi.Decl.Body, ret.Results[0])
+			if sel, ok := ast.Unparen(res).(*ast.SelectorExpr); ok {
 				if cst, ok := info.Uses[sel.Sel].(*types.Const); ok && cst.Name() == "VisitRecurse" {
 					okRet = true
 				}
